@@ -26,6 +26,10 @@ pub struct TlsClient {
     /// next plaintext message to push into the TLS session
     pub next_plain: usize,
     pub failed: Option<String>,
+    /// (message index, offset in the ciphertext stream at which its last record ends)
+    pub marks: Vec<(usize, usize)>,
+    pub produced: usize,
+    pub handed: usize,
 }
 
 pub struct TState {
@@ -268,9 +272,13 @@ impl TState {
                         let b = m.bytes.clone();
                         let reply = m.reply;
                         let _ = t.conn.writer().write_all(&b);
-                        self.rec
-                            .borrow_mut()
-                            .emit(json!({"e": "p_send", "i": t.next_plain, "b": b}));
+                        while t.conn.wants_write() {
+                            let mut buf = Vec::new();
+                            let _ = t.conn.write_tls(&mut buf);
+                            t.produced += buf.len();
+                            self.tls_out.extend_from_slice(&buf);
+                        }
+                        t.marks.push((t.next_plain, t.produced));
                         t.next_plain += 1;
                         if reply && lockstep {
                             self.owed = true;
@@ -280,6 +288,7 @@ impl TState {
                 if t.conn.wants_write() {
                     let mut buf = Vec::new();
                     let _ = t.conn.write_tls(&mut buf);
+                    t.produced += buf.len();
                     self.tls_out.extend_from_slice(&buf);
                 } else {
                     break;
@@ -399,6 +408,9 @@ impl TState {
             self.tls_pump();
             let k = std::cmp::min(cap - got.len(), self.tls_out.len());
             got.extend(self.tls_out.drain(..k));
+            if let Some(t) = self.tls.as_mut() {
+                t.handed += k;
+            }
             if got.is_empty() {
                 let done = self
                     .tls
@@ -420,6 +432,18 @@ impl TState {
         self.rec
             .borrow_mut()
             .emit(json!({"e": "rd", "want": want, "got": b}));
+        // plaintext messages whose TLS records have now been handed over completely
+        if let Some(t) = self.tls.as_mut() {
+            let handed = t.handed;
+            let ready: Vec<usize> = t.marks.iter().filter(|m| m.1 <= handed).map(|m| m.0).collect();
+            t.marks.retain(|m| m.1 > handed);
+            for i in ready {
+                let mb = self.rec.borrow().bytes(&self.msgs[i].bytes);
+                self.rec
+                    .borrow_mut()
+                    .emit(json!({"e": "p_send", "i": i, "b": mb}));
+            }
+        }
         buf[..got.len()].copy_from_slice(&got);
         Ok(got.len())
     }
